@@ -94,6 +94,13 @@ func init() {
 		zz + "LocksHeld":    func(fr *frame, a []Value) Value { return fr.x.f.Const(64, uint64(fr.x.cur.held)) },
 		zz + "TrackRelease": func(fr *frame, a []Value) Value { fr.x.trackRelease = a[0].(*Term).IsTrue(); return nil },
 		zz + "Yield":          func(fr *frame, a []Value) Value { return nil },
+		// Visible(name): the harness declares an access to a shared object of its own (a recording
+		// destination) a visible operation, so that schedules are explored around it
+		zz + "Visible": func(fr *frame, a []Value) Value {
+			name, _ := concreteString(a[0].(Str))
+			fr.x.yieldOp(fr, "shared:"+name, "shared:"+name, true)
+			return nil
+		},
 		zz + "RegisterThread": func(fr *frame, a []Value) Value { return nil },
 		zz + "ExpectThread":   func(fr *frame, a []Value) Value { return nil },
 		zz + "Symbolic":     func(fr *frame, a []Value) Value { return fr.x.f.Bool(true) },
@@ -181,6 +188,44 @@ func init() {
 			return fr.x.newError(inSprintf(fr, a).(Str))
 		},
 		"fmt.Fprintf": func(fr *frame, a []Value) Value {
+			x := fr.x
+			if args, ok := a[2].(Slice); ok && len(args.v) == 0 {
+				// no operands: the format is copied, "%%" becomes "%" and any other verb is
+				// reported as missing (flags and widths are not modelled: any byte after '%' is
+				// taken as the verb)
+				format := a[1].(Str)
+				var out []*Term
+				pct := x.f.Const(8, '%')
+				for i := 0; i < len(format.b); i++ {
+					c := format.b[i]
+					if !x.decide(fr, x.f.Eq(c, pct)) {
+						out = append(out, c)
+						continue
+					}
+					if i+1 >= len(format.b) {
+						out = append(out, x.strConst("%!(NOVERB)").b...)
+						break
+					}
+					i++
+					v := format.b[i]
+					if x.decide(fr, x.f.Eq(v, pct)) {
+						out = append(out, pct)
+						continue
+					}
+					out = append(out, x.strConst("%!").b...)
+					out = append(out, v)
+					out = append(out, x.strConst("(MISSING)").b...)
+				}
+				w := a[0].(Iface)
+				if w.t == nil {
+					x.runtimePanic(fr, "invalid memory address or nil pointer dereference (nil io.Writer)")
+				}
+				m := x.eng.prog.LookupMethod(w.t, nil, "Write")
+				if m == nil {
+					abortf("fmt.Fprintf: no Write method on %v", w.t)
+				}
+				return x.callSSA(fr, fr.curInstr, m, []Value{w.v, x.sliceOfBytes(out, 0)}, nil)
+			}
 			fr.x.notes = append(fr.x.notes, "fmt.Fprintf")
 			fr.x.reached["__fprintf__"] = true
 			return Tuple{fr.x.f.Const(64, 0), Iface{}}
